@@ -216,7 +216,7 @@ static int cmd_exec(int argc, char **argv) {
     if (sim_shared->aux[1]) printf("X class=SKIPPED scen=%s detail=%s\n", scen, sim_shared->note);
     else if (!sim_shared->completed) printf("X class=faultfree_%s prop=C11 scen=%s hash=0 detail=%s\n", fate_names[dr.fate], scen, buf);
     else printf("X class=ok_faultfree_completed scen=%s requests=%ld hash=%016llx\n", scen, (long)sim_shared->requests, (unsigned long long)sim_shared->result_hash);
-    unlink(errpath);
+    if (!getenv("M4SIM_KEEP_STDERR")) unlink(errpath);
     return 0;
   }
   runarg_t a = { text, 0, 0, 0 };
@@ -227,7 +227,7 @@ static int cmd_exec(int argc, char **argv) {
   char buf[300];
   eng_first_line_matching(errpath, "ERROR", buf, sizeof buf);
   printf("X class=%s fate=%s fired=%d site=0x%llx stderr_bytes=%ld scen=%s detail=%s\n", vc ? vc : "ok_controlled_abort", fate_names[cr.fate], fired, (unsigned long long)sim_shared->fail_site, (long)sim_shared->stderr_bytes, scen, buf);
-  unlink(errpath);
+  if (!getenv("M4SIM_KEEP_STDERR")) unlink(errpath);
   return 0;
 }
 
